@@ -432,7 +432,7 @@ Definition oracle_spec_langid (op : bytes) (args : list bytes) (impl : bytes) : 
   else None.
 
 (* ================================================================== locales / extensions *)
-From UL Require Import Ext Ops AbstractLocale LocaleSpec.
+From UL Require Import Ext LocaleOrd Ops AbstractLocale LocaleSpec.
 
 Definition semi : bytes := [59].
 Definition fmt_kmap (m : kmap) : bytes :=
@@ -454,39 +454,7 @@ Definition fmt_locale (l : locale) : bytes :=
 Definition fmt_res_e {A} (f : A -> bytes) (r : res A) : bytes :=
   match r with Ok a => bs "OK " ++ f a | Err _ => bs "ERR" | Panic _ => bs "PANIC" | OutOfFuel => bs "FUEL" end.
 
-(* derived PartialEq on the model values *)
-Fixpoint kmap_eqb (a b : kmap) : bool :=
-  match a, b with
-  | [], [] => true
-  | (k, v) :: a', (k', v') :: b' => beqb k k' && lbeqb v v' && kmap_eqb a' b'
-  | _, _ => false
-  end.
-Definition oli_eqb (a b : option langid) : bool :=
-  match a, b with Some x, Some y => li_eqb x y | None, None => true | _, _ => false end.
-Definition ext_eqb (a b : extmap) : bool :=
-  kmap_eqb (u_keywords (e_unicode a)) (u_keywords (e_unicode b))
-  && lbeqb (u_attrs (e_unicode a)) (u_attrs (e_unicode b))
-  && oli_eqb (t_lang (e_transform a)) (t_lang (e_transform b))
-  && kmap_eqb (t_fields (e_transform a)) (t_fields (e_transform b))
-  && lbeqb (e_private a) (e_private b).
-Definition loc_eqb (a b : locale) : bool := li_eqb (loc_id a) (loc_id b) && ext_eqb (loc_ext a) (loc_ext b).
-
-(* derived Ord: id, then extensions { unicode {keywords, attributes}, transform {tlang, tfields}, other, private } *)
-Fixpoint kmap_cmp (a b : kmap) : comparison :=
-  match a, b with
-  | [], [] => Eq
-  | [], _ :: _ => Lt
-  | _ :: _, [] => Gt
-  | (k, v) :: a', (k', v') :: b' => then_cmp (bcmp k k') (then_cmp (lcmp v v') (kmap_cmp a' b'))
-  end.
-Definition loc_cmp (a b : locale) : comparison :=
-  let ea := loc_ext a in let eb := loc_ext b in
-  then_cmp (li_cmp (loc_id a) (loc_id b))
-  (then_cmp (kmap_cmp (u_keywords (e_unicode ea)) (u_keywords (e_unicode eb)))
-  (then_cmp (lcmp (u_attrs (e_unicode ea)) (u_attrs (e_unicode eb)))
-  (then_cmp (ocmp li_cmp (t_lang (e_transform ea)) (t_lang (e_transform eb)))
-  (then_cmp (kmap_cmp (t_fields (e_transform ea)) (t_fields (e_transform eb)))
-            (lcmp (e_private ea) (e_private eb)))))).
+(* derived PartialEq / Ord of Locale: model/LocaleOrd.v (theorems: proofs/LocaleAlgebra.v) *)
 
 Definition model_reparse (l : locale) : bytes :=
   match locale_from_bytes (loc_to_string l) with
